@@ -276,7 +276,32 @@ class Inliner(object):
         return all(self._is_starstar_use(body, u) for u in uses)
 
     # ----------------------------------------------------------------- driver
+    def _collect_foreign(self):
+        """Instance methods that are not anchors and whose name is defined exactly once in the package (no override, no
+        namesake): `obj._h(args)` on any object can only mean that method."""
+        known_names = set(q.rsplit('.', 1)[-1] for q in KNOWN)
+        stop = set(dir(list) + dir(dict) + dir(str) + dir(bytes) + dir(bytearray) + dir(set) + dir(object)) | {
+            'format', 'debug', 'info', 'warning', 'error', 'exception', 'send', 'close', 'recv', 'feed', 'read', 'write'}
+        out = {}
+        for m in self.modules.values():
+            if m.name.startswith('examples'):
+                continue
+            for cn in ast.walk(m.tree):
+                if not isinstance(cn, ast.ClassDef):
+                    continue
+                for s_ in cn.body:
+                    if isinstance(s_, ast.FunctionDef) and self.method_names.get(s_.name, 0) == 1 and s_.name not in known_names \
+                            and s_.name not in stop and not s_.decorator_list and self._ok_def(s_) == 'plain':
+                        out[s_.name] = _Helper(s_, 'method', '%s.%s.%s' % (m.name, cn.name, s_.name), cn, False)
+        # the name must not also be an attribute that is assigned somewhere (a callable stored in a field)
+        for m in self.modules.values():
+            for n in ast.walk(m.tree):
+                if isinstance(n, ast.Attribute) and isinstance(n.ctx, ast.Store) and n.attr in out:
+                    out.pop(n.attr)
+        return out
+
     def run(self):
+        self.foreign = self._collect_foreign()
         for rnd in range(4):
             changed = False
             for m in self.modules.values():
@@ -386,6 +411,10 @@ class Inliner(object):
                     if h.kind != 'method' or ctx.get('recv_kind') == 'method':
                         return h
                 elif ctx.get('clsname') and f.value.id == ctx['clsname'] and h.kind in ('classmethod', 'staticmethod'):
+                    return h
+            if h is None and f.value.id != ctx.get('recv'):
+                h = getattr(self, 'foreign', {}).get(f.attr)
+                if h is not None and h.node is not ctx['fn']:
                     return h
         if isinstance(f, ast.Name):
             h = ctx['nested'].get(f.id)
